@@ -238,6 +238,12 @@ def run(ck):
         n = rng.choice([1, 2, 3, 4, 5, 7, 10, 16, 25, 60, 200]) if rng.random() < .3 else rng.randint(1, 24)
         p1, p2 = rand_pt(rng), rand_pt(rng)
         L = math.dist(p1, p2)
+        if i % 25 == 11:
+            # coordinates given as Python integers (hand-written models through the API)
+            p1, p2 = [rng.randint(-10, 10) for _ in range(3)], [rng.randint(-10, 10) for _ in range(3)]
+            if p1 == p2:
+                p2[2] += 7
+            L = math.dist(p1, p2)
         if i % 25 == 7:
             # an end point a hair above or below the plane z = 0 (in free space that plane is nothing special)
             e = rng.choice([p1, p2])
